@@ -304,7 +304,7 @@ func FunctionMap() map[string]physical.FunctionDetails {
 					OutputType:    octosql.String,
 					Strict:        true,
 					Function: func(values []octosql.Value) (octosql.Value, error) {
-						return octosql.NewString(strings.Repeat(values[0].Str, int(values[1].Int))), nil
+						return repeatString(values[0].Str, values[1].Int)
 					},
 				},
 				{
@@ -312,7 +312,7 @@ func FunctionMap() map[string]physical.FunctionDetails {
 					OutputType:    octosql.String,
 					Strict:        true,
 					Function: func(values []octosql.Value) (octosql.Value, error) {
-						return octosql.NewString(strings.Repeat(values[1].Str, int(values[0].Int))), nil
+						return repeatString(values[1].Str, values[0].Int)
 					},
 				},
 			},
@@ -1166,4 +1166,16 @@ func FunctionMap() map[string]physical.FunctionDetails {
 			},
 		},
 	}
+}
+
+// repeatString implements String * Int. strings.Repeat panics on a negative count and when the
+// length of the result overflows an int, so both are checked here and reported as errors.
+func repeatString(s string, count int64) (octosql.Value, error) {
+	if count < 0 {
+		return octosql.ZeroValue, fmt.Errorf("can't repeat a string a negative number of times: %d", count)
+	}
+	if len(s) > 0 && count > math.MaxInt/int64(len(s)) {
+		return octosql.ZeroValue, fmt.Errorf("repeating a string of length %d %d times overflows the maximum string length", len(s), count)
+	}
+	return octosql.NewString(strings.Repeat(s, int(count))), nil
 }
